@@ -72,14 +72,14 @@ class Obsolescence(Harness):
         self.depth = depth; self.methods = methods
         self.name = f"C17.obsolescence.d{depth}"
         self.bounds = {"derivation steps": depth, "then": "one editing method on any node, then two uses of every node",
-                       "deriving methods": methods or "all sharing methods + deepcopy"}
+                       "deriving methods": methods or "all sharing methods + deepcopy + ListOfDicts(list) / ListOfDicts(generator) / map(identity)"}
         self.symbolic = []; self.choice_dims = ["target node and method per step", "edited node and editing method"]
     def build(self, ctx):
         steps = []
         nn = 1
         for d in range(self.depth):
             t = choice(f"t{d}", range(nn))
-            m = choice(f"m{d}", self.methods or (SHARING + ["deepcopy"]))
+            m = choice(f"m{d}", self.methods or (SHARING + ["deepcopy", "ctor", "ctor_gen", "map_identity"]))
             st = {"target": t, "method": m}
             if m in ("add", "extend"): st["other"] = choice(f"o{d}", range(nn))
             steps.append(st); nn += 1
@@ -99,7 +99,7 @@ class Obsolescence(Harness):
         parents = {0: []}
         for i, st in enumerate(steps):
             node = i + 1
-            if st["method"] == "deepcopy": parents[node] = []
+            if st["method"] in ("deepcopy", "ctor", "ctor_gen", "map_identity"): parents[node] = []         # new item objects: no sharing
             else:
                 parents[node] = [st["target"]]
                 if full and st["method"] in ("add", "extend"): parents[node].append(st["other"])
@@ -118,6 +118,13 @@ class Obsolescence(Harness):
         parents = self._parents(steps, full=True)
         edited = steps[-1]["target"]
         obsolete = self._ancestors(parents, edited)
+        # lists connected to the edited one through methods that hand on the same item objects (in either direction)
+        family = {edited}; grew = True
+        while grew:
+            grew = False
+            for node, ps in parents.items():
+                for q in ps:
+                    if (node in family) != (q in family): family |= {node, q}; grew = True
         cl = []
         for i, flag in enumerate(out["flags"]):
             if flag is None: continue            # a list the program has let go of: nobody can use it
@@ -127,6 +134,8 @@ class Obsolescence(Harness):
             cl.append((f"node {i} ({what}) obsolete == {want}", T(flag == want)))
             cl.append((f"node {i}: warning printed exactly once iff obsolete", T(out["warnings_total"][i] == (1 if want else 0))))
             cl.append((f"node {i}: no warning on the second use", T(out["second_use"][i] == 0)))
+            if i not in family and i < len(out["flags"]) - 1 and out.get("unchanged") is not None:
+                cl.append((f"node {i} (shares no item objects with the edited list): its items are untouched by the edit", T(out["unchanged"][i] is True)))
             if "first_use" in out and want and out["warnings_total"][i] == 1:
                 pass
         return cl
